@@ -395,7 +395,11 @@ func writeReplay(e *Engine, o *Obl, path, repo string) bool {
 	var b strings.Builder
 	fmt.Fprintf(&b, "obligation: %s\nkind: %s\nfunction: %s\nat: %s\ngoal: %s\nresult: %s (solver %s, %.2fs)\nscript: %s\n", o.Name, o.Kind, o.Fn, o.Pos, o.Desc, o.Result, o.Solver, o.Secs, o.Script)
 	reproduced := false
-	if (o.Result == "sat" || o.Model != "") && o.vc != nil {
+	if o.vc != nil && o.vc.fn != nil && o.Result != "sat" && o.Model == "" && hasScenarioTemplate(o) {
+		ok, txt, _ := templateReplay(e, o, repo, filepath.Dir(path))
+		b.WriteString(txt)
+		reproduced = ok
+	} else if (o.Result == "sat" || o.Model != "") && o.vc != nil {
 		src := o.Out
 		if o.Result != "sat" {
 			src = o.Model
@@ -410,6 +414,12 @@ func writeReplay(e *Engine, o *Obl, path, repo string) bool {
 	b.WriteString(trunc(o.Out, 20000))
 	os.WriteFile(path, []byte(b.String()), 0o644)
 	return reproduced
+}
+
+// hasScenarioTemplate reports whether the function has a replay template without model inputs.
+func hasScenarioTemplate(o *Obl) bool {
+	b, err := os.ReadFile(filepath.Join(verifDir, "replay", shortName(fnKey(o.vc.fn))+".tmpl"))
+	return err == nil && !strings.Contains(string(b), "//@ get ")
 }
 
 // parseModel extracts (define-fun name () Sort value) entries.
